@@ -632,7 +632,9 @@ static void ComputeFatalSingles(PartDef & pd, int workers)
 static std::string NormalizeKey(const std::string & part, const std::string & k)
 {
    std::string key = k; const size_t so = key.find("stack-overflow"); if (so != std::string::npos) key = key.substr(0, so + 14);
-   return part + ":" + key;
+   // without symbols the engine's "innermost frame" slot can pick up an address from the report text: drop any component that is an address
+   std::string out; size_t p = 0; while (p <= key.size()) { size_t q = key.find(':', p); if (q == std::string::npos) q = key.size(); const std::string comp = key.substr(p, q - p); if (!(comp.size() > 2 && comp[0] == '0' && comp[1] == 'x')) { if (!out.empty()) out += ":"; out += comp; } p = q + 1; }
+   return part + ":" + out;
 }
 
 int main(int argc, char ** argv)
@@ -694,7 +696,9 @@ int main(int argc, char ** argv)
          mutx::Case c; fn(replayIndex, c);
          printf("outcome: %s\n%s%sresult: %s %s %s\n", c.outcome.c_str(), c.note.empty() ? "" : c.note.c_str(), c.note.empty() ? "" : "\n", c.failed ? "VIOLATION" : "OK", c.failed ? NormalizeKey(pd.name, c.key).c_str() : "", c.msg.c_str());
          fflush(stdout); _exit(c.failed ? 1 : 0); }
-      const double now = verif::NowS(), end = args.t0 + args.deadline * 0.92; const double share = (end - now) / (double)(nRun - done);
+      // deadline split over the remaining parts in proportion to their case counts (plus a constant per part)
+      double wMine = (double)pd.total + 50000.0, wRest = 0; for (size_t pj = pi; pj < g_parts.size(); pj++) if (args.WantPart(g_parts[pj].name)) wRest += (double)g_parts[pj].total + 50000.0;
+      const double now = verif::NowS(), end = args.t0 + args.deadline * 0.92; const double share = (end - now) * wMine / std::max(1.0, wRest);
       R.SetDeadline(now + std::max(5.0, share));
       const size_t v0 = res.violations.size();
       verif::Part & part = R.Run(pd.total, fn, desc);
